@@ -183,7 +183,7 @@ CONTRACTS = [
         id='compiler.compile', file='pysmi/compiler.py', func='MibCompiler.compile',
         serves=['C07', 'C08', 'C09', 'C10', 'C19'],
         params={'self': SELF, 'mibnames': TupOf(Str), 'options': MapOf()},
-        setup=compile_setup, defs=DEFS,
+        setup=compile_setup, defs=DEFS, heavy=True,
         inline=['MibStatus.setOptions'],
         requires=[],
         loops=LOOPS,
